@@ -513,8 +513,13 @@ namespace Pistache::Rest
                 return Route::Status::Match;
         }
 
-        auto& r              = routes[req.method()];
-        const auto sanitized = SegmentTreeNode::sanitizeResource(resource);
+        // The router is shared by all worker threads: look the method up without
+        // inserting (operator[] would add an empty table for a method that has no
+        // route, while another worker is reading or iterating the map).
+        static const SegmentTreeNode noRoutes;
+        const auto methodRoutes = routes.find(req.method());
+        const SegmentTreeNode& r = (methodRoutes != routes.end()) ? methodRoutes->second : noRoutes;
+        const auto sanitized     = SegmentTreeNode::sanitizeResource(resource);
         const std::string_view path { sanitized.data(), sanitized.size() };
         auto result = r.findRoute(path);
 
